@@ -601,11 +601,23 @@ func runC06(c *eng.Ctx) {
 		// D11: singleton consuming a group whose members have dependencies
 		{Regs: []Reg{mkReg("Leaf_K0_a", godi.Singleton), mkReg("PosA_1_1", godi.Singleton, withGroup("g")), mkReg("PosB_1_1", godi.Singleton, withGroup("g")), mkReg("InU_2_2_Group", godi.Singleton)}},
 		{Regs: []Reg{mkReg("Leaf_K0_a", godi.Singleton), mkReg("PosA_1_1", godi.Singleton), mkReg("PosA_2_3", godi.Singleton), mkReg("PosA_3_7", godi.Singleton)}},
+		// one identity of a multi-identity singleton registration removed and registered again by
+		// another constructor: which of the two unordered singletons is built first must not decide
+		// who serves the identity (several consumers, so that many independent nodes exist)
+		{Regs: []Reg{mkReg("Leaf_K0_a", godi.Singleton, withAs("IK0", "IA")), mkReg("InU_2_1_Iface", godi.Singleton), mkReg("InU_3_1_Iface", godi.Singleton),
+			{Remove: true, RmType: "IK0", Tail: true}, tailReg(mkReg("Leaf_K0_b", godi.Singleton, withAs("IK0")))}},
+		{Regs: []Reg{mkReg("MR_K0K1", godi.Singleton), mkReg("PosA_2_3", godi.Singleton), mkReg("PosB_3_2", godi.Singleton),
+			{Remove: true, RmType: "K1", Tail: true}, tailReg(mkReg("Leaf_K1_b", godi.Singleton))}},
+		{Regs: []Reg{mkReg("OutP_K0K1", godi.Singleton), mkReg("PosA_2_1", godi.Singleton), mkReg("PosB_3_1", godi.Singleton),
+			{Remove: true, RmType: "K0", Tail: true}, tailReg(mkReg("Leaf_K0_c", godi.Singleton))}},
 	}
-	for _, s := range directed {
+	for di, s := range directed {
 		idx, mine := cr.next()
 		if !mine {
 			continue
+		}
+		if m := NewModel(s); m.Class != ClsOK {
+			panic(fmt.Sprintf("harness fixture %d of C06 (directed) is not buildable: %s", di, m.Class))
 		}
 		c.R.Begin(idx)
 		check(idx, s, "directed")
